@@ -1211,7 +1211,7 @@ PROPERTY = Property(
                       "non-trivial = supported source (unsupported ones must raise ValueError)",
                  floors={"zero_flavour": 0.03, "unnormalised": 0.3, "source=cosmogenic": 0.2,
                          "source=astrophysical": 0.08, "unsupported_source": 0.02}),
-        SubCheck("exit_cylinder", exit_cases("cyl"), check_exit, quick=6000, thorough=300000,
+        SubCheck("exit_cylinder", exit_cases("cyl"), check_exit, quick=3000, thorough=300000,
                  rule="cylinder x vertex (inside with 1e-6 margin, centre, near a face, exactly on a "
                       "face / the side) x direction (isotropic, axis, near-axis tilts down to 1e-17, "
                       "spherical angles at multiples of pi/2, aimed at the rim, unnormalised); "
@@ -1219,28 +1219,28 @@ PROPERTY = Property(
                  floors={"near_axis": 0.1, "generic": 0.15, "axis_parallel": 0.08,
                          "through_edge": 0.1},
                  classify=classify_exit),
-        SubCheck("exit_box", exit_cases("box"), check_exit, quick=6000, thorough=300000,
+        SubCheck("exit_box", exit_cases("box"), check_exit, quick=3000, thorough=300000,
                  rule="box x vertex (inside, centre, near a face, on faces / edges / corners) x "
                       "direction (as exit_cylinder; aimed at edges and corners); non-trivial = not "
                       "parallel to an axis",
                  floors={"near_axis": 0.15, "generic": 0.15, "axis_parallel": 0.08,
                          "through_edge": 0.08},
                  classify=classify_exit),
-        SubCheck("exit_boundary", exit_cases(None, boundary=True), check_exit, quick=4000,
+        SubCheck("exit_boundary", exit_cases(None, boundary=True), check_exit, quick=2400,
                  thorough=200000,
                  rule="either volume x vertex exactly on a face, edge, corner or (cylinder) on the four "
                       "exactly representable lines of the side x the same directions; non-trivial = "
                       "not parallel to an axis",
                  floors={"cyl": 0.15, "box": 0.25, "line_in_face": 0.2},
                  classify=classify_exit),
-        SubCheck("weights", weight_cases(), check_weights, quick=2400, thorough=120000,
+        SubCheck("weights", weight_cases(), check_weights, quick=1200, thorough=120000,
                  rule="volume x interior vertex x direction (isotropic, axes, horizontal, steep up/down; "
                       "no tiny non-zero components) x 6 neutrino types x energy 1e3..1e12 x {CTW, GQRS} x "
                       "{PREM, CoreMantleCrust}; get_weights vs reference integrals; non-trivial = the "
                       "Earth chord crosses a shell or is shorter than one integration step",
                  floors={"crosses_shell": 0.15, "survival_intermediate": 0.12, "chord<step": 0.1,
                          "attenuated_in_ice": 0.05, "GQRS": 0.2, "CoreMantleCrustModel": 0.12}),
-        SubCheck("events", event_cases(), check_events, quick=1200, thorough=60000,
+        SubCheck("events", event_cases(), check_events, quick=600, thorough=60000,
                  rule="generator configuration (volume, constant / callable energy, shadow, flavour "
                       "ratio, source, interaction and earth model, preset count) x numpy seed x 1-10 "
                       "create_event calls observed through a recording subclass; non-trivial = >= 2 calls",
@@ -1250,7 +1250,7 @@ PROPERTY = Property(
                  rule="shadow=True generator x energy x numpy seed, 150-300 create_event calls; "
                       "non-trivial = at least one rejection and variance sum w(1-w) >= 5",
                  floors={"rejections": 0.4, "variance>=5": 0.3}),
-        SubCheck("list_generator", list_cases(), check_list, quick=3000, thorough=150000,
+        SubCheck("list_generator", list_cases(), check_list, quick=1600, thorough=150000,
                  rule="ListGenerator over 1-5 events / particles (list or single object), loop "
                       "True/False/default, history of <= 24 create / read count / set count / set loop "
                       "ops against a Python model; non-trivial = the list was exhausted (cycled or stopped)",
